@@ -21,6 +21,10 @@ Middleware functions implicitly take `next` first unless 'no_next'/'next_at' say
 
 REQUEST_BUILTINS = ('request', '_application', '_route', '_dispatch_state')
 RESERVED = REQUEST_BUILTINS + ('context', 'next')
+# names that no URL binding, resource or middleware may offer although they are not injectable built-ins:
+# `_error` is documented as a reserved built-in (it exists for render_error functions only); `self` cannot be handed
+# to anything by name (the framework's own bound methods receive the injectables as keywords)
+UNDELIVERABLE = ('_error', 'self')
 PHASES = ('request', 'endpoint', 'render')
 PROVIDES_ATTR = {'request': 'provides', 'endpoint': 'endpoint_provides', 'render': 'render_provides'}
 REQUIRED_ROLES = ('req', 'kwreq', 'pos')
@@ -101,6 +105,8 @@ def conflicts(cfg, stack, which):
         offer('_ignored', 'url')
     for n in RESERVED:
         offer(n, 'builtins')
+    for n in UNDELIVERABLE:
+        offer(n, 'undeliverable')
     res = set(cfg.get('outer_res', []))
     if not (which == 'null' and ('outer' in [m['level'] for m in cfg['mws']] or cfg.get('embedded'))):
         res |= set(cfg.get('app_res', []))
@@ -227,7 +233,7 @@ def analyse(cfg):
     either = False
     # reserved names used as application resources are refused before anything else
     for key in ('app_res', 'outer_res'):
-        bad = [n for n in cfg.get(key, []) if n in RESERVED]
+        bad = [n for n in cfg.get(key, []) if n in RESERVED + UNDELIVERABLE]
         if bad:
             rejects.append((('NameError',), 'reserved name %r used as application resource' % bad))
     whichs = ['route', 'null']
